@@ -6,6 +6,7 @@ CONSTANTS
     SrvKinds = {"deliver"}
     Faults = {"eof", "werr"}
     ClientClose = FALSE
+    Compliant = FALSE
     Bug = {}
 SPECIFICATION Spec
 INVARIANTS Pairing NothingAfterClose Released NoStuckCaller SlotsLive OneTerminal
